@@ -393,6 +393,7 @@ func main() {
 	allOpsDiff()
 	memEdgeDiff()
 	atomicWaitGrid()
+	sharedGrowDiff()
 	if os.Getenv("HC01_ONLY") == "foldgrid" { // development aid
 		rep.Write(orc)
 		return
